@@ -420,9 +420,13 @@ func classifyAttributes(receiver *metadata.ReceiverMeta) (classifiedAttributes, 
 }
 
 func getReceiverParamsNameSet(receiver *metadata.ReceiverMeta) mapset.Set[string] {
-	names := linq.Map(receiver.Params, func(param metadata.FuncParam) string {
-		return param.Name
-	})
+	names := []string{}
+	for _, param := range receiver.Params {
+		// The request context is handed over by the router; it is not something an annotation can bind
+		if !param.Type.IsContext() {
+			names = append(names, param.Name)
+		}
+	}
 
 	return mapset.NewSet(names...)
 }
